@@ -80,8 +80,20 @@ def _promoted_keeps_link(evs):
     return None
 
 
+def _mc(run):
+    """algorithm layer: link names through walker -> filter -> WithHardlinkReset -> receiver's Hardlinks validator"""
+    from vlib import Inconclusive
+    run.tlc_mc("HardlinkMC", "HardlinkMC_thorough.cfg" if run.thorough else "HardlinkMC.cfg",
+               label="alg/hard-link names: reset rule + validator acceptance for every inode partition of N files x {reported, hidden, pruned}^N")
+    for cfg, inv, what in (("HardlinkMC_overwrite.cfg", "ResetRule", "map entry rewritten on every member (seeded variant) must break the reset rule"),
+                           ("HardlinkMC_noreset.cfg", "ValidatorAccepts", "a filtered stack without WithHardlinkReset must produce a stream the validator rejects")):
+        r = run.tlc_mc("HardlinkMC", cfg, label="sanity: " + what, expect_error=True)
+        if "Invariant %s is violated" % inv not in r["out"]:
+            raise Inconclusive("HardlinkMC sanity configuration %s was not rejected: the model is vacuous" % cfg)
+
+
 def check(run):
-    return syncfam.run_family(run, "C11", "sync", PFX, extra=["-what", "filtered"], name="sync-filtered", sig=_sig, text=_text,
+    return syncfam.run_family(run, "C11", "sync", PFX, mc=_mc, extra=["-what", "filtered"], name="sync-filtered", sig=_sig, text=_text,
                               assumptions=ASSUME, selftests=[
         ("make a link entry name a path that was never sent", _link_to_self),
         ("let Open succeed for a file the filter hides", _open_hidden),
